@@ -52,6 +52,46 @@ def _limits(mem_gb):
     return f
 
 
+def resolve_unwindset(h, log):
+    """`@unwindset: <regex>.<k>=<n>; ...` gives per-loop bounds: <regex> is
+    searched in CBMC's pretty function name, <k> is CBMC's loop number inside
+    that function.  Loop identifiers contain mangled names, so they are
+    looked up in the linked GOTO binary of this very build: a first Kani run
+    with `--cbmc-args --show-loops` links the harness (CBMC only lists loops
+    and exits), then `cbmc --show-loops` on that binary gives the ids.
+    Returns the `id:n,...` string or raises ValueError."""
+    if h.get("_unwindset"):
+        return h["_unwindset"]
+    cmd = base_cmd(h["fs"]) + ["--harness", h.full, "--exact", "-Z", "stubbing", "-Z", "unstable-options",
+                               "--cbmc-args", "--show-loops"]
+    with open(log + ".loops", "w") as f:
+        subprocess.run(cmd, cwd=HARNESS, env=env(), stdout=f, stderr=subprocess.STDOUT, timeout=1800)
+    import glob
+    name = h["name"]
+    cands = [p for p in glob.glob(os.path.join(TARGET, h["fs"], "kani", "**", "out", f"*{len(name)}{name}.out"), recursive=True)
+             if not p.endswith(".symtab.out")]
+    if not cands:
+        raise ValueError("no linked GOTO binary found for " + name)
+    binary = max(cands, key=os.path.getmtime)
+    out = subprocess.run(["cbmc", "--show-loops", binary], capture_output=True, text=True, timeout=600).stdout
+    loops = re.findall(r"^Loop (\S+)\.(\d+):\n\s+file .*? function (.*)$", out, re.M)
+    pairs = []
+    for ent in h["unwindset"].split(";"):
+        ent = ent.strip()
+        if not ent:
+            continue
+        m = re.match(r"(.+)\.(\d+)\s*=\s*(\d+)$", ent)
+        if not m:
+            raise ValueError("bad @unwindset entry: " + ent)
+        rx, k, n = m.group(1).strip(), m.group(2), m.group(3)
+        hit = [f"{lid}.{idx}" for lid, idx, pretty in loops if idx == k and re.search(rx, pretty)]
+        if not hit:
+            raise ValueError(f"@unwindset entry {ent!r} matches no loop of the harness binary")
+        pairs += [f"{x}:{n}" for x in hit]
+    h["_unwindset"] = ",".join(pairs)
+    return h["_unwindset"]
+
+
 def run(h, log, extra=None, timeout=None, mem_gb=10):
     """Run one harness; returns a result dict."""
     cmd = base_cmd(h["fs"]) + ["--harness", h.full, "--exact", "-Z", "stubbing"]
@@ -59,6 +99,21 @@ def run(h, log, extra=None, timeout=None, mem_gb=10):
         cmd += ["--solver", h["solver"]]
     if extra:
         cmd += extra
+    if h.get("unwindset"):
+        try:
+            us = resolve_unwindset(h, log)
+        except Exception as e:  # noqa
+            with open(log, "w") as f:
+                f.write(f"unwindset resolution failed: {e}\n")
+            r = parse("")
+            r.update({"wall_s": 0, "cmd": " ".join(cmd), "log": log, "verdict": "error"})
+            return r
+        if "--cbmc-args" in cmd:
+            cmd += ["--unwindset", us]
+        else:
+            if "unstable-options" not in cmd:
+                cmd += ["-Z", "unstable-options"]
+            cmd += ["--cbmc-args", "--unwindset", us]
     timeout = timeout or h["timeout"]
     t0 = time.time()
     status = "ok"
